@@ -1,0 +1,200 @@
+//! Verification hooks; compiled only with the `verif-hooks` feature.
+//!
+//! Nothing in here changes what the library computes: events are reported to a sink that a
+//! verification harness may install, and a few private pure functions are re-exported.
+#![allow(missing_docs, clippy::unwrap_used, clippy::panic)]
+
+use super::runner::{ParTask, Runner};
+use crate::{ChunkSize, NumThreads, Params};
+use orx_concurrent_iter::{ConcurrentIterX, HasMore};
+use std::sync::{Arc, RwLock};
+
+/// Event reported to the installed sink.
+#[derive(Clone, Debug, PartialEq, Eq)]
+pub enum Event {
+    /// A runner is created: resolved settings.
+    RunBegin {
+        kind: &'static str,
+        max_num_threads: usize,
+        chunk: usize,
+        exact: bool,
+        input_len: Option<usize>,
+    },
+    /// The spawner is about to read `has_more` (a yield point of the spawner).
+    BeforeHasMore,
+    /// Value read by the spawner: `None` = Maybe, `Some(0)` = No, `Some(n)` = Yes(n).
+    HasMore(Option<usize>),
+    /// A worker thread has been spawned; `index` is the number spawned before it in this run.
+    Spawned { index: usize },
+    /// The spawner is done spawning.
+    SpawningFinished,
+    /// First thing a worker does.
+    WorkerBegin { chunk: usize },
+    /// Last thing a worker does (also while unwinding).
+    WorkerEnd,
+}
+
+type Sink = Arc<dyn Fn(Event) + Send + Sync>;
+
+static SINK: RwLock<Option<Sink>> = RwLock::new(None);
+
+/// Installs (or replaces) the process-global sink.
+pub fn install(sink: Sink) {
+    *SINK.write().unwrap_or_else(|e| e.into_inner()) = Some(sink);
+}
+
+/// Removes the sink.
+pub fn uninstall() {
+    *SINK.write().unwrap_or_else(|e| e.into_inner()) = None;
+}
+
+pub(crate) fn emit(event: Event) {
+    let sink = SINK.read().unwrap_or_else(|e| e.into_inner()).clone();
+    if let Some(sink) = sink {
+        sink(event)
+    }
+}
+
+struct EndGuard;
+impl Drop for EndGuard {
+    fn drop(&mut self) {
+        emit(Event::WorkerEnd);
+    }
+}
+
+pub(crate) fn wrap_task<'a, F, T>(f: &'a F) -> impl Fn(usize) -> T + Sync + 'a
+where
+    F: Fn(usize) -> T + Sync,
+{
+    move |c| {
+        emit(Event::WorkerBegin { chunk: c });
+        let _guard = EndGuard;
+        f(c)
+    }
+}
+
+/// What the spawner sees of the concurrent iterator: remaining length only.
+pub(crate) struct ObservedLen<'a, I: ConcurrentIterX>(pub &'a I);
+
+impl<I: ConcurrentIterX> ObservedLen<'_, I> {
+    pub(crate) fn has_more(&self) -> HasMore {
+        emit(Event::BeforeHasMore);
+        let value = self.0.has_more();
+        emit(Event::HasMore(match value {
+            HasMore::Maybe => None,
+            HasMore::No => Some(0),
+            HasMore::Yes(n) => Some(n),
+        }));
+        value
+    }
+}
+
+/// The thread scope as the runner uses it: `spawn` only.
+pub(crate) struct ObservedScope<'scope, 'env: 'scope> {
+    scope: &'scope std::thread::Scope<'scope, 'env>,
+    spawned: std::cell::Cell<usize>,
+}
+
+impl<'scope, 'env> ObservedScope<'scope, 'env> {
+    pub(crate) fn new(scope: &'scope std::thread::Scope<'scope, 'env>) -> Self {
+        Self {
+            scope,
+            spawned: 0.into(),
+        }
+    }
+
+    pub(crate) fn spawn<F, T>(&self, f: F) -> std::thread::ScopedJoinHandle<'scope, T>
+    where
+        F: FnOnce() -> T + Send + 'scope,
+        T: Send + 'scope,
+    {
+        let handle = self.scope.spawn(f);
+        let index = self.spawned.get();
+        self.spawned.set(index + 1);
+        emit(Event::Spawned { index });
+        handle
+    }
+}
+
+pub(crate) fn run_begin(kind: &'static str, runner: &Runner) {
+    let (max_num_threads, chunk, exact, input_len) = runner.verif_settings();
+    emit(Event::RunBegin {
+        kind,
+        max_num_threads,
+        chunk,
+        exact,
+        input_len,
+    });
+}
+
+/// Thin wrappers over the private, pure settings arithmetic (available parallelism explicit).
+pub mod pure {
+    use super::*;
+
+    fn task(task: u8) -> ParTask {
+        match task {
+            0 => ParTask::Collect,
+            1 => ParTask::EarlyReturn,
+            _ => ParTask::Reduce,
+        }
+    }
+
+    fn has_more(h: Option<usize>) -> HasMore {
+        match h {
+            None => HasMore::Maybe,
+            Some(0) => HasMore::No,
+            Some(n) => HasMore::Yes(n),
+        }
+    }
+
+    /// `calc_num_threads` with the available parallelism as an argument (before `.max(1)`).
+    pub fn calc_num_threads(input_len: Option<usize>, avail: usize, num_threads: NumThreads) -> usize {
+        super::super::runner_settings::num_threads::verif_calc_num_threads(
+            input_len,
+            avail,
+            num_threads,
+        )
+    }
+
+    /// `Runner::new` with the available parallelism as an argument:
+    /// `(max_num_threads, chunk, exact)`.
+    pub fn runner_new(
+        params: Params,
+        task_kind: u8,
+        input_len: Option<usize>,
+        avail: usize,
+    ) -> (usize, usize, bool) {
+        let r = Runner::verif_new(params, task(task_kind), input_len, avail);
+        let (m, c, e, _) = r.verif_settings();
+        (m, c, e)
+    }
+
+    /// `do_spawn` and `next_chunk_size` of the runner that `runner_new` builds.
+    pub fn spawn_decisions(
+        params: Params,
+        task_kind: u8,
+        input_len: Option<usize>,
+        avail: usize,
+        num_spawned: usize,
+        h: Option<usize>,
+    ) -> (bool, Option<usize>) {
+        let r = Runner::verif_new(params, task(task_kind), input_len, avail);
+        (
+            r.do_spawn(num_spawned, has_more(h)),
+            r.next_chunk_size(num_spawned, has_more(h)),
+        )
+    }
+
+    /// `From<usize>` conversions and `is_sequential`.
+    pub fn params_of(num_threads: usize, chunk_size: usize) -> (NumThreads, ChunkSize, bool) {
+        let p = Params::default()
+            .with_num_threads(num_threads)
+            .with_chunk_size(chunk_size);
+        (p.num_threads, p.chunk_size, p.is_sequential())
+    }
+
+    /// The k-way merge used by the filtering ordered collects.
+    pub fn heap_sort_into_vec<K: Copy + PartialOrd, T>(vectors: Vec<Vec<(K, T)>>, output: &mut Vec<T>) {
+        super::super::map_fil_col::heap_sort_into_vec(vectors, output)
+    }
+}
